@@ -9,7 +9,7 @@ import time
 from . import driver, tlc
 
 TRACE_INV = ["M_Driver", "M_C01", "M_C02a", "M_C02b", "M_C02c", "M_C03", "M_C06",
-             "M_PadC02", "M_PadC04", "M_PadC06", "M_Step", "M_Final", "Conf", "End"]
+             "M_PadC02", "M_PadC04", "M_PadC06", "M_PadState", "M_Step", "M_Final", "Conf", "End"]
 MON2PROP = {"C01": "C01", "C02a": "C02", "C02b": "C02", "C02c": "C02", "PadC02": "C02",
             "C03": "C03", "PadC04": "C04", "C06": "C06", "PadC06": "C06"}
 
@@ -44,6 +44,7 @@ def _norm_pad(e, eps):
     p.setdefault("stuck", False)
     p.setdefault("reward", 0)
     p.setdefault("checker", "none")
+    p.setdefault("st", [])
     if isinstance(p["reward"], dict) or p["reward"] is None:
         p["reward"] = 0
     e["pad"] = p
@@ -66,7 +67,9 @@ def validate_traces(ad, episodes, tag, invariants=TRACE_INV, shards=16, template
     def one(j):
         lo, hi = bounds[j], bounds[j + 1]
         wname = "%s_%s_%d" % (template.lower(), tag, j)
-        wd, root = tlc.prepare(wname, template=template, env_module=ad.module)
+        modtxt = open(tlc._find_module(ad.module)).read()
+        padstate = "PadStateOK(I, Hist(T), Tr.pad.st[k])" if "PadStateOK(" in modtxt else "TRUE"
+        wd, root = tlc.prepare(wname, template=template, env_module=ad.module, subst={"PADSTATE": padstate})
         f = os.path.join(wd, "traces.ndjson")
         tlc.dump_ndjson(f, episodes[lo:hi])
         tlc.write_cfg(wd, root, invariants=invariants)
@@ -241,7 +244,7 @@ def run_env(ad, tier, seed=0, stages=("model", "bfs", "replay", "checker")):
             e = eps[k]
             if mon == "driver":
                 raise tlc.TLCError("driver produced a non mask-confined episode")
-            res.add(MON2PROP.get(mon) or ad.monitor_props[mon], mon, e["inst"], e["a"],
+            res.add(MON2PROP.get(mon) or ad.monitor_props.get(mon, "C08"), mon, e["inst"], e["a"],
                     "step %d end=%s reward=%s checker=%s pad=%s" % (step, e["end"], e["reward"], e["checker"], e["pad"]))
         for e in eps:
             if e["end"] == "inexact" or isinstance(e["reward"], dict):
